@@ -68,16 +68,39 @@ PLY_FMT = {'repr': repr,                          # shortest round-trip text, ex
            'g': lambda v: '%.17g' % v}            # 17 significant digits, exponent form below 1e-4
 
 
-def write_ply(path, polys, fmt='repr'):
+def write_ply(path, polys, fmt='repr', layout='std'):
+    """layout: the same polygons in the variants of the Mangle text format a reader has to accept --
+    std: pixelization/snapped/balkanized keywords, fields caps, weight, pixel, str;
+    minimal: no keyword lines, no pixel field (files written without pixelization);
+    spaced: tabs / runs of blanks / trailing blanks, '+' signs and upper-case exponents, blank lines between polygons;
+    header: further header lines (unit, real) before the first polygon, fields in another order"""
     fm = PLY_FMT[fmt]
+    if layout == 'spaced':
+        fm0 = fm
+        fm = lambda v: ('+' if v >= 0 and not str(fm0(v)).startswith('-') else '') + fm0(v).replace('e', 'E')  # noqa: E731
     with open(path, 'w') as f:
         f.write('%d polygons\n' % len(polys))
-        f.write('pixelization 0s\nsnapped\nbalkanized\n')
+        if layout in ('std', 'spaced'):
+            f.write('pixelization 0s\nsnapped\nbalkanized\n')
+        elif layout == 'header':
+            f.write('unit d\nreal 10\npixelization 0s\nsnapped\nbalkanized\n')
         for p in polys:
-            f.write('polygon %d ( %d caps, %r weight, %d pixel, %r str):\n' % (
-                p['id'], len(p['cm']), float(p['weight']), p['pixel'], float(p['str'])))
+            w, s_ = float(p['weight']), float(p['str'])
+            if layout == 'minimal':
+                f.write('polygon %d ( %d caps, %r weight, %r str):\n' % (p['id'], len(p['cm']), w, s_))
+            elif layout == 'spaced':
+                f.write('polygon   %d\t(  %d caps,\t%r weight,   %d pixel,  %r str ):   \n' % (p['id'], len(p['cm']), w, p['pixel'], s_))
+            elif layout == 'header':
+                f.write('polygon %d ( %d caps, %r str, %d pixel, %r weight):\n' % (p['id'], len(p['cm']), s_, p['pixel'], w))
+            else:
+                f.write('polygon %d ( %d caps, %r weight, %d pixel, %r str):\n' % (p['id'], len(p['cm']), w, p['pixel'], s_))
             for x, cm in zip(p['x'], p['cm']):
-                f.write(' %s %s %s %s\n' % (fm(float(x[0])), fm(float(x[1])), fm(float(x[2])), fm(float(cm))))
+                if layout == 'spaced':
+                    f.write('\t%s   %s\t%s  %s  \n' % (fm(float(x[0])), fm(float(x[1])), fm(float(x[2])), fm(float(cm))))
+                else:
+                    f.write(' %s %s %s %s\n' % (fm(float(x[0])), fm(float(x[1])), fm(float(x[2])), fm(float(cm))))
+            if layout == 'spaced':
+                f.write('\n')
 
 
 def padded(polys, pad, maxcaps):
@@ -241,7 +264,7 @@ def job_window(j):
                 elif route in ('ply', 'ply_assign'):
                     path = os.path.join(d, 'polys.ply')
                     if not os.path.exists(path):
-                        write_ply(path, polys, j.get('ply_fmt', 'repr'))
+                        write_ply(path, polys, j.get('ply_fmt', 'repr'), j.get('ply_layout', 'std'))
                     got = mng.read_mangle_polygons(path)
                     if route == 'ply_assign':
                         # the text format carries no use-mask: the harness assigns it after reading
@@ -472,7 +495,7 @@ def job_history(j):
                     if os.path.exists(path):
                         os.remove(path)
                     if op['file'].endswith('.ply'):
-                        write_ply(path, op['content'], op.get('fmt', 'repr'))
+                        write_ply(path, op['content'], op.get('fmt', 'repr'), op.get('layout', 'std'))
                     else:
                         write_fits(path, op['content'], j['pad'], 'array')
                     rec['res'] = None
